@@ -247,6 +247,12 @@ theorem holds_after_write {vs : List Vol} {v : Vol} {h : Hash} {now : Time} (hv 
     simpa using this
   · simp [Vol.write, Vol.setBlock]
 
+theorem pickTarget_mem {ws : List Vol} {w w' : Vol} (hw : w ∈ ws) (h : pickTarget ws w = some w') : w' ∈ ws := by
+  unfold pickTarget at h
+  split at h
+  · exact List.mem_of_find?_eq_some h
+  · cases h; exact hw
+
 /-! ### one request preserves the invariant -/
 
 theorem step_now_ge (c : Cfg) (s : St) (op : Op) : s.now ≤ (step c s op).1.now := by
@@ -277,14 +283,18 @@ theorem prot_step {c : Cfg} {s : St} {g : Ghost} (hp : Prot c s g) (op : Op) :
           simp only [ghostStep, ackOf]
           exact prot_ack (s := { vols := _, now := s.now, rr := s.rr }) h1 h (holds_after_touch hv hro hf)
         · split
-          · rename_i w hw
-            have hwm : w ∈ writables s.vols := List.mem_of_getElem? hw
-            obtain ⟨hv, _⟩ := mem_writables hwm
-            have h1 : Prot c { vols := s.vols.map (fun x => if x.id = w.id then x.write h s.now else x),
-                               now := s.now, rr := s.rr + 1 } g :=
-              prot_map hp _ _ (fun h' t hg _ x _ => keeps_if (keeps_write h h' t s.now x (hle h' t hg)))
-            simp only [ghostStep, ackOf]
-            exact prot_ack (s := { vols := _, now := s.now, rr := s.rr + 1 }) h1 h (holds_after_write hv)
+          · rename_i w0 hw0
+            split
+            · rename_i w hw
+              have hwm : w ∈ writables s.vols := pickTarget_mem (List.mem_of_getElem? hw0) hw
+              obtain ⟨hv, _⟩ := mem_writables hwm
+              have h1 : Prot c { vols := s.vols.map (fun x => if x.id = w.id then x.write h s.now else x),
+                                 now := s.now, rr := s.rr + 1 } g :=
+                prot_map hp _ _ (fun h' t hg _ x _ => keeps_if (keeps_write h h' t s.now x (hle h' t hg)))
+              simp only [ghostStep, ackOf]
+              exact prot_ack (s := { vols := _, now := s.now, rr := s.rr + 1 }) h1 h (holds_after_write hv)
+            · simp only [ghostStep, ackOf]
+              exact hp
           · simpa [ghostStep, ackOf] using hp
   | touch h =>
     simp only [step]
@@ -445,7 +455,9 @@ theorem allGood_step {c : Cfg} {s : St} (hg : AllGood s) (op : Op) : AllGood (st
       · split
         · exact allGood_map (fun v hv => volGood_if hv (volGood_touch hv h s.now)) hg
         · split
-          · exact allGood_map (fun v hv => volGood_if hv (volGood_write hv h s.now)) hg
+          · split
+            · exact allGood_map (fun v hv => volGood_if hv (volGood_write hv h s.now)) hg
+            · exact hg
           · exact hg
   | touch h =>
     simp only [step]
